@@ -744,6 +744,10 @@ def coq_compare(ctx, label, items, names, per_file=150):
             ctx.obligation("correspondence:%s-model-evaluates" % label, False, "coqc rc=%s, %d results for %d cases: %s" % (rc, len(got), len(chunk), out[-400:]))
             return bad, False
         for (t, exp, case), g in zip(chunk, got):
+            # exceptions raised by the interpreter itself have fixed negative codes; map the real type onto them
+            if g and isinstance(g[0], list) and len(g[0]) > 1 and g[0][0] == 1 and g[0][1] < 0 and isinstance(exp[0], list):
+                own = {"NameError": -1, "UnboundLocalError": -1, "AttributeError": -2, "TypeError": -3}
+                exp = [[exp[0][0], own.get(case.get("_exc"), exp[0][1])] + exp[0][2:]] + exp[1:]
             if g != exp:
                 bad.append((case, g, exp))
     return bad, True
@@ -765,6 +769,8 @@ def run_reads(ctx, cases, check_model=True):
         if check_model:
             try:
                 term, exp = model_read_case(ctx, case, real, names)
+                if real["err"] is not None:
+                    case["_exc"] = type(real["err"]).__name__
                 items.append((term, exp, case))
             except ValueError as e:
                 ctx.notes.append("case not abstracted: %s" % e)
@@ -781,7 +787,7 @@ def run(ctx):
                         "a parser returns a Structure instance or raises (parseLines contract); a None result is modelled but excluded from the eq-fresh theorem",
                         "instance attributes other than title / pdffit / _lattice that the user attached (not format metadata) are outside the property: they survive a read",
                         "any exception type counts as a failed read / write",
-                        "the any-failure form of read atomicity is proved for Structure.read/readStr; for the PDFFitStructure overrides the parse-raises form is proved and later failures are covered by the finder"]
+                        "the any-failure theorem assumes that a pdffit entry of a parse result, when present, is a dictionary (pdffit_entry_ok)"]
     quick = ctx.tier == "quick"
     rng = ctx.rng
     from diffpy.structure.parsers import inputFormats
